@@ -44,6 +44,7 @@ from ..constants import TrustLevel
 from ..decorators import sdproperty
 
 from ..errors import PGPDecryptionError
+from ..errors import PGPError
 
 from ..symenc import _decrypt
 from ..symenc import _encrypt
@@ -274,16 +275,18 @@ class PKESessionKeyV3(PKESessionKey):
 
     def parse(self, packet):
         super(PKESessionKeyV3, self).parse(packet)
-        self.encrypter = packet[:8]
-        del packet[:8]
+        # the version octet has been read; the rest of this packet ends where the packet ends, whatever its
+        # fields claim about themselves - nothing of what follows it belongs to it
+        body = bytearray(packet[:max(self.header.length - 1, 0)])
+        del packet[:max(self.header.length - 1, 0)]
+        if len(body) < 9:
+            raise PGPError("Session key packet is too short for its key id and algorithm")
 
-        self.pkalg = packet[0]
-        del packet[0]
+        self.encrypter = body[:8]
+        del body[:8]
 
-        # version, key id and algorithm octet (10 octets) have been read; what is left of this packet is the
-        # algorithm-specific part - it ends where the packet ends, whatever it claims about itself
-        body = bytearray(packet[:(self.header.length - 10)])
-        del packet[:(self.header.length - 10)]
+        self.pkalg = body[0]
+        del body[0]
 
         if self.ct is not None:
             self.ct.parse(body)
